@@ -26,6 +26,7 @@ type Config struct {
 	Tags  []string // build tags
 	Env   []string // extra environment (GOARCH=…)
 	Label string   // name of the build configuration in reports
+	Prefix string  // import path prefix of the analysed module (default ModulePath)
 }
 
 // Prog is a loaded, type-checked and SSA-built program.
@@ -47,6 +48,9 @@ func Load(cfg Config) (*Prog, error) {
 	}
 	if cfg.Label == "" {
 		cfg.Label = "default"
+	}
+	if cfg.Prefix == "" {
+		cfg.Prefix = ModulePath
 	}
 	env := append(os.Environ(),
 		"GOFLAGS=-mod=mod", "GOPROXY=off", "GOSUMDB=off", "GOWORK=off", "GOTOOLCHAIN=local", "CGO_ENABLED=0")
@@ -71,12 +75,12 @@ func Load(cfg Config) (*Prog, error) {
 	all := map[string]*packages.Package{}
 	packages.Visit(pkgs, nil, func(p *packages.Package) {
 		all[p.PkgPath] = p
-		if strings.HasPrefix(p.PkgPath, ModulePath) {
+		if strings.HasPrefix(p.PkgPath, cfg.Prefix) {
 			for _, e := range p.Errors {
 				errs = append(errs, e.Error())
 			}
 		}
-		if p.IllTyped && strings.HasPrefix(p.PkgPath, ModulePath) {
+		if p.IllTyped && strings.HasPrefix(p.PkgPath, cfg.Prefix) {
 			errs = append(errs, p.PkgPath+": ill-typed")
 		}
 	})
@@ -91,7 +95,7 @@ func Load(cfg Config) (*Prog, error) {
 		p.byPath[sp.Pkg.Path()] = sp
 	}
 	for _, pk := range pkgs {
-		if strings.HasPrefix(pk.PkgPath, ModulePath) {
+		if strings.HasPrefix(pk.PkgPath, cfg.Prefix) {
 			p.Pkgs = append(p.Pkgs, pk)
 			if p.byPath[pk.PkgPath] == nil {
 				return nil, fmt.Errorf("no SSA package for %s", pk.PkgPath)
@@ -100,14 +104,14 @@ func Load(cfg Config) (*Prog, error) {
 	}
 	sort.Slice(p.Pkgs, func(i, j int) bool { return p.Pkgs[i].PkgPath < p.Pkgs[j].PkgPath })
 	if len(p.Pkgs) == 0 {
-		return nil, fmt.Errorf("no packages of %s under %s", ModulePath, cfg.Dir)
+		return nil, fmt.Errorf("no packages of %s under %s", cfg.Prefix, cfg.Dir)
 	}
 	return p, nil
 }
 
 // Pkg returns the SSA package with the given path relative to the module ("" = root).
 func (p *Prog) Pkg(rel string) *ssa.Package {
-	path := ModulePath
+	path := p.Cfg.Prefix
 	if rel != "" {
 		path += "/" + rel
 	}
@@ -224,7 +228,7 @@ func (p *Prog) SrcFuncs(rel string) []*ssa.Function {
 func (p *Prog) ModuleRel() []string {
 	var out []string
 	for _, pk := range p.Pkgs {
-		out = append(out, strings.TrimPrefix(strings.TrimPrefix(pk.PkgPath, ModulePath), "/"))
+		out = append(out, strings.TrimPrefix(strings.TrimPrefix(pk.PkgPath, p.Cfg.Prefix), "/"))
 	}
 	return out
 }
